@@ -65,6 +65,13 @@ finally:
     for f in ("patch.diff", "demo_test.go", "demo_path.txt", "README.md"):
         if os.path.exists(os.path.join(src, f)):
             shutil.copyfile(os.path.join(src, f), os.path.join(out, f))
+    try:
+        meta["needs_to_manifest_and_description"] = open(os.path.join(src, "README.md")).read()[:2500]
+    except Exception:
+        pass
+    meta["what_was_run"] = ("scratch worktree of /repo HEAD %s: git apply patch.diff; go1.27.0 build ./...; demo (go test -run SeededDemo <pkg>) with the change; "
+                            "existing suite go1.27.0 test -vet=off -count=1 -skip SeededDemo ./internal/... ./cmd/... with the change; "
+                            "VERIF_REPO=<worktree> /verif/check <prop> (quick tier) for each listed check; git checkout HEAD -- . ; demo again without the change") % meta.get("repo_head", "")
     meta["confirmed"] = bool(meta.get("builds") and meta.get("demo_with_change") == "FAIL" and meta.get("demo_without_change") == "PASS" and meta.get("existing_tests_with_change") == "PASS")
     json.dump(meta, open(os.path.join(out, "meta.json"), "w"), indent=1)
     print(json.dumps(meta, indent=1))
